@@ -314,9 +314,39 @@ def r2(prog, run, fns, byid):
 
 
 def r3(prog, run):
-    rid = run.rule('C10.R3', 'a socket disconnect clears isAuthenticated and then either starts another attempt or closes the session, which clears '
-                             'sessionStarted, notifies both managers and emits disconnected', floor=4)
+    rid = run.rule('C10.R3', 'a socket disconnect clears isAuthenticated; an established session is closed before anything else happens (also when a redirect is followed), '
+                             'during start-up exactly one of retry / closeSession follows; closeSession clears sessionStarted, notifies both managers and emits disconnected',
+                   floor=4)
     sd = prog.fn(OC + '::_q_socketDisconnected')
+    # the "session is open" flag: the boolean member that openSession() sets (whatever it is called)
+    osn = prog.fn(OC + '::openSession')
+    flags = [osn.nodes[osn.skip(n['l'])]['f'] for _, n in osn.all_nodes('assign')
+             if osn.nodes[osn.skip(n['l'])]['k'] == 'mem' and osn.const_value(n['r']) == ('bool', True) and osn.nodes[osn.skip(n['l'])]['f'].startswith(OCP + '::')]
+    if not flags:
+        raise AnalysisBroken('C10.R3: openSession() sets no boolean member of the private class (session flag not found)')
+    session_flag = flags[0]
+    # "try the next address" is a start-up state: it is only ever set while no session is established (checked here), so the handler is
+    # evaluated for an established session with that state excluded
+    retry_fields = set()
+    for b_ in sd.blocks.values():
+        t = b_.get('term')
+        if t and t.get('cond') is not None:
+            bo = sd.binop(sd.skip(t['cond']))
+            if bo and bo[0] == '==' and any(sd.nodes[sd.skip(x)]['k'] == 'enum' for x in bo[1:]):
+                for x in bo[1:]:
+                    m = sd.nodes[sd.skip(x)]
+                    if m['k'] == 'mem' and m.get('f', '').startswith(OCP + '::'):
+                        retry_fields.add((m['f'], [sd.nodes[sd.skip(y)].get('name') for y in bo[1:] if sd.nodes[sd.skip(y)]['k'] == 'enum'][0]))
+    startup_only = True
+    for fld, enumerator in retry_fields:
+        for g in prog.fns.values():
+            if g.entry is None or not g.file.endswith('QXmppOutgoingClient.cpp'):
+                continue
+            for i, n in g.all_nodes('assign'):
+                if g.nodes[g.skip(n['l'])].get('f') == fld and g.nodes[g.skip(n['r'])].get('name') == enumerator:
+                    if not any(p is False and any(g.nodes[j].get('f') == session_flag for j in g.walk(c)) for c, p in g.atomic_assertions_at(i)) and \
+                            not any(p is True and g.nodes[g.skip(c)]['k'] == 'un' and any(g.nodes[j].get('f') == session_flag for j in g.walk(c)) for c, p in g.atomic_assertions_at(i)):
+                        startup_only = False
 
     def transfer(f, nid, st):
         n = f.nodes[nid]
@@ -325,25 +355,43 @@ def r3(prog, run):
         if n['k'] == 'call' and f.cname(n) in (OC + '::closeSession', OCP + '::connectToNextAddress', OCP + '::connectToHost'):
             return st + (f.cname(n).split('::')[-1],)
         return None
-    exits, _ = cfgx.explore(sd, (), transfer)
-    run.paths += len(exits)
-    for st, path in exits.items():
-        run.instance(rid)
-        if 'unauth' in st and len([x for x in st if x != 'unauth']) == 1:
-            run.ok(rid, sd.loc(), 'disconnect path: isAuthenticated cleared, then %s' % [x for x in st if x != 'unauth'][0])
-        else:
-            run.violation(rid, '_q_socketDisconnected#path:%s' % '-'.join(st), sd.loc(),
-                          'a disconnect path does %s (expected: clear isAuthenticated, then exactly one of retry / closeSession)' % (list(st) or 'nothing'),
-                          cfgx.describe_path(sd, path))
+    for established in (False, True):
+        def custom(f, nid, st, established=established):
+            n = f.nodes[nid]
+            if n['k'] == 'mem' and n.get('f') == session_flag:
+                return (established,)
+            if established and startup_only:
+                bo = f.binop(nid)
+                if bo and bo[0] == '==' and any(f.nodes[f.skip(x)].get('f') in {r[0] for r in retry_fields} for x in bo[1:]):
+                    return (False,)
+            return None
+        ev = cfgx.Evaluator(sd, {}, custom=custom)
+        exits, _ = cfgx.explore(sd, (), transfer, lambda f, c, st: ev.ev(c, st))
+        run.paths += len(exits)
+        for st, path in exits.items():
+            run.instance(rid)
+            acts = [x for x in st if x != 'unauth']
+            closes = 'closeSession' in acts
+            retries = [x for x in acts if x != 'closeSession']
+            ok = 'unauth' in st and len(retries) <= 1 and len(acts) >= 1 and acts.count('closeSession') <= 1
+            if established:
+                # an established session never survives the loss of its connection: it is closed, and closed before any new attempt starts
+                ok = ok and closes and acts[0] == 'closeSession'
+                what = 'established session: closed%s' % (', then ' + retries[0] if retries else '')
+            else:
+                ok = ok and len(acts) == 1
+                what = 'no session yet: %s' % (acts[0] if acts else '-')
+            if ok:
+                run.ok(rid, sd.loc(), 'disconnect path (%s): isAuthenticated cleared' % what)
+            else:
+                run.violation(rid, '_q_socketDisconnected#%s#path:%s' % ('established' if established else 'startup', '-'.join(st)), sd.loc(),
+                              'a disconnect path %s does %s (expected: clear isAuthenticated; with an established session close it before anything else, otherwise exactly one '
+                              'of retry / closeSession): %s' % ('with an established session' if established else 'during start-up', list(st) or 'nothing',
+                                                                'the client keeps reporting an open session - isConnected() is true as soon as the next TCP connection exists, '
+                                                                'disconnected() is never emitted' if established and not closes else 'unexpected shape'),
+                              cfgx.describe_path(sd, path))
     cs = prog.fn(OC + '::closeSession')
     run.instance(rid)
-    # the "session is open" flag: the boolean member that openSession() sets (whatever it is called)
-    osn = prog.fn(OC + '::openSession')
-    flags = [osn.nodes[osn.skip(n['l'])]['f'] for _, n in osn.all_nodes('assign')
-             if osn.nodes[osn.skip(n['l'])]['k'] == 'mem' and osn.const_value(n['r']) == ('bool', True) and osn.nodes[osn.skip(n['l'])]['f'].startswith(OCP + '::')]
-    if not flags:
-        raise AnalysisBroken('C10.R3: openSession() sets no boolean member of the private class (session flag not found)')
-    session_flag = flags[0]
     need = {'sessionStarted=false': False, NS + 'StreamAckManager::onSessionClosed': False, NS + 'OutgoingIqManager::onSessionClosed': False, OC + '::disconnected': False}
 
     def always(nid):
